@@ -5,6 +5,7 @@
 package mcp
 
 import (
+	"bytes"
 	"context"
 	"encoding/json"
 	"fmt"
@@ -139,7 +140,25 @@ func applySchema(data json.RawMessage, resolved *jsonschema.Resolved, forOutput 
 	if !appliedDefaults {
 		return data, nil
 	}
-	out, err := json.Marshal(unmarshaled)
+	// The numbers in unmarshaled are float64s, which cannot represent every
+	// integer beyond 2^53. Re-marshal from a copy decoded with exact numbers,
+	// with the same defaults applied, so that the value handed on is the value
+	// that was received.
+	var exact any
+	if len(data) > 0 {
+		dec := internaljson.NewDecoder(bytes.NewReader(data))
+		dec.UseNumber()
+		if err := dec.Decode(&exact); err != nil {
+			return nil, fmt.Errorf("unmarshaling: %w", err)
+		}
+	}
+	if m, ok := exact.(map[string]any); !ok || m == nil {
+		exact = make(map[string]any)
+	}
+	if err := resolved.ApplyDefaults(&exact); err != nil {
+		return nil, fmt.Errorf("applying schema defaults:\n%w", err)
+	}
+	out, err := json.Marshal(exact)
 	if err != nil {
 		return nil, fmt.Errorf("marshalling with defaults: %v", err)
 	}
